@@ -172,6 +172,35 @@ def rule_fanout(ctx, R):
                                    (a, bb_))
                     has_tr = any(x.has_place(root=('param', 2)) and x.has_call('len') for x in (a, bb_))
                     ok = ok or (has_exec and has_tr)
+                if not ok and any(x.kind == 'bin' and x.name == 'Mul' for x in e.walk()):
+                    # the candidates are counted while they are sent (an `impl IntoIterator` has no len()): one factor
+                    # is executors.len(), the other a counter that starts at 0 and is incremented by 1 exactly once
+                    # per iteration of the loop over the candidates (one level above the per-executor send)
+                    from lib import count_per_iteration
+                    for m in [x for x in e.walk() if x.kind == 'bin' and x.name == 'Mul']:
+                        ex = [a for a in m.args if a.has_place(root=('param', 1), field='executors') and a.has_call('len')]
+                        cn = [a for a in m.args if a not in ex]
+                        if len(ex) != 1 or len(cn) != 1:
+                            continue
+                        alts = cn[0].args if cn[0].kind == 'phi' else [cn[0]]
+                        zero = any(a.kind == 'const' and a.const_value() in ('0', 0) for a in alts)
+                        incs = []
+                        for i_ in sorted(b.live_blocks()):
+                            for s_ in b.blocks[i_]['st']:
+                                rv_ = s_.get('rv') or {}
+                                if s_['k'] == 'assign' and rv_.get('k') == 'bin' and rv_.get('op') in ('Add', 'AddWithOverflow') and \
+                                        rv_['b'].get('k') == 'const' and str(rv_['b']['c'].get('v')) == '1' and \
+                                        'usize' in b.locals[s_['lhs']['l']] and b.in_loop(i_):
+                                    incs.append(i_)
+                        send_depth = [len(b.in_loop(c_.bb)) for _s, c_, o_ in sends if o_ is b]
+                        for i_ in incs:
+                            its = iteration_context(F_(ctx), b, b, i_)
+                            over_tracks = any(x_.has_place(root=('param', 2)) for x_ in its)
+                            hs = b.in_loop(i_)
+                            inner = min(hs, key=lambda h_: len(b.loops()[h_])) if hs else None
+                            once = inner is not None and count_per_iteration(b, inner, [i_]) == (1, 1)
+                            if zero and over_tracks and once and send_depth and len(hs) == send_depth[0] - 1:
+                                ok = True
                 if not ok and e.kind == 'const' and e.const_value() in ('0', 0):
                     # explicit fast path for an empty batch: 0 == executors.len() * 0 exactly when `tracks` is empty
                     from lib import path_conditions as _pc
